@@ -1196,7 +1196,7 @@ theorem cs0P_relaxed (cfg : Cfg S K) (pd : PD S K) (hrel : cfg.ctype = .relaxed)
   rw [if_pos (by rw [hrel]; rfl)]
 
 theorem finalizeP_cutset_iff (cfg : Cfg S K) (pd : PD S K) (e : Bool) (c : SubP S) :
-    c ∈ (finalizeP cfg pd e).cutset ↔ ∃ bv lp n, maxValue (termsP pd) = some bv ∧
+    c ∈ (finalizePOld cfg pd e).cutset ↔ ∃ bv lp n, maxValue (termsP pd) = some bv ∧
       lp ∈ (if pd.isExactField then [] else cs0P cfg pd) ∧
       getNode (layers3P cfg pd e) lp.1 lp.2 = some n ∧ n.marked = true ∧ c = subOf cfg (layers3P cfg pd e) bv n := by
   rw [finalizeP_cutset]
@@ -1222,6 +1222,10 @@ theorem finalizeP_cutset_iff (cfg : Cfg S K) (pd : PD S K) (e : Bool) (c : SubP 
     dsimp only
     rw [if_pos hmk]
     rfl
+
+theorem finalizePOld_bestExactValue (cfg : Cfg S K) (pd : PD S K) (e : Bool) :
+    (finalizePOld cfg pd e).bestExactValue =
+      if e then maxValue (termsP pd) else maxValue ((termsP pd).filter (·.isExact)) := rfl
 
 theorem finalizeP_bestExactValue (cfg : Cfg S K) (pd : PD S K) (e : Bool) :
     (finalizeP cfg pd e).bestExactValue =
@@ -1320,7 +1324,7 @@ variable {cfg : Cfg S K} {H : Nat → S → EInt} {B t : Int} {Live : Nat → Na
 /-- **C08 (iii)** for `finalizeP`: the upper bound attached to a sub-problem of the cut-set dominates its potential
     `x`, as soon as `x` reaches the threshold `t` of the invariant -/
 theorem FinP.cutset_ub (hf : FinP cfg H B t Live pd k) (hy : HypP cfg H B t) (hlb : InI cfg.lb) (e : Bool)
-    (c : SubP S) (hc : c ∈ (finalizeP cfg pd e).cutset)
+    (c : SubP S) (hc : c ∈ (finalizePOld cfg pd e).cutset)
     (x : Int) (hΦ : (H c.depth c.state).addI c.value = some x) (htx : t ≤ x) (hx : x > cfg.lb) : x ≤ c.ub := by
   obtain ⟨bv, lp, n3, hbv, hlp, hn3, hmk, rfl⟩ := (finalizeP_cutset_iff cfg pd e c).1 hc
   cases hief : pd.isExactField with
@@ -1365,12 +1369,12 @@ theorem FinP.cutset_ub (hf : FinP cfg H B t Live pd k) (hy : HypP cfg H B t) (hl
     value is below `t`, a sub-problem of the cut-set has potential `≥ t` -/
 theorem FinP.cutset_cover (hf : FinP cfg H B t Live pd k) (hy : HypP cfg H B t) (e : Bool)
     (h0 : Int) (hH0 : H cfg.root.depth cfg.root.state = some h0) (ht : t ≤ cfg.root.value + h0)
-    (hbe : ∀ be, (finalizeP cfg pd e).bestExactValue = some be → be < t) :
-    ∃ c ∈ (finalizeP cfg pd e).cutset, ∃ y, (H c.depth c.state).addI c.value = some y ∧ t ≤ y := by
+    (hbe : ∀ be, (finalizePOld cfg pd e).bestExactValue = some be → be < t) :
+    ∃ c ∈ (finalizePOld cfg pd e).cutset, ∃ y, (H c.depth c.state).addI c.value = some y ∧ t ≤ y := by
   -- no exact terminal node reaches `t`
   have noTerm : ∀ tn ∈ termsP pd, tn.isExact = true → t ≤ tn.value → False := by
     intro tn htmem hex hv
-    rw [finalizeP_bestExactValue] at hbe
+    rw [finalizePOld_bestExactValue] at hbe
     cases e with
     | true =>
       obtain ⟨bv, h1, h2⟩ := Cover.maxValue_ge _ tn htmem
@@ -1473,7 +1477,7 @@ theorem compileP_bestValue_ge (cfg : Cfg S K) (H : Nat → S → EInt) (B : Int)
   exact finalizeP_bestValue_ge hI hterm hP e h0 hH0 (Int.le_refl _)
 
 theorem finalizeP_cutset_of_empty (cfg : Cfg S K) (pd : PD S K) (e : Bool) (hn : pd.pool = []) :
-    (finalizeP cfg pd e).cutset = [] := by
+    (finalizePOld cfg pd e).cutset = [] := by
   rw [List.eq_nil_iff_forall_not_mem]
   intro c hc
   obtain ⟨bv, _, _, hbv, _⟩ := (finalizeP_cutset_iff cfg pd e c).1 hc
@@ -1546,7 +1550,7 @@ theorem buildLoopP_lbmax (cfg : Cfg S K) (hlb : cfg.lb = iMax) (hrel : cfg.ctype
       exact ih pd' (stepLayerP_lbmax cfg hlb hrel hW hc hd (polled cfg pd) pd' var hJ hst)
 
 theorem finalizeP_cutset_of_exact (cfg : Cfg S K) (pd : PD S K) (e : Bool) (hx : pd.isExactField = true) :
-    (finalizeP cfg pd e).cutset = [] := by
+    (finalizePOld cfg pd e).cutset = [] := by
   rw [List.eq_nil_iff_forall_not_mem]
   intro c hc
   obtain ⟨_, _, _, _, hlp, _⟩ := (finalizeP_cutset_iff cfg pd e c).1 hc
@@ -1557,96 +1561,9 @@ theorem finalizeP_cutset_of_exact (cfg : Cfg S K) (pd : PD S K) (e : Bool) (hx :
 theorem compileP_lbmax_cutset (cfg : Cfg S K) (hlb : cfg.lb = iMax) (hrel : cfg.ctype = .relaxed) (hW : 1 ≤ cfg.width)
     (hc : cfg.useCache = false) (hd : cfg.dom = none) (cache : Cache S) (store : DomStore S K) (polls : Nat)
     (stopAt : Option Nat) (e : Bool) :
-    (finalizeP cfg (buildLoopP cfg stopAt (cfg.P.nbVars + 2) (initPD cfg cache store polls)).1 e).cutset = [] :=
+    (finalizePOld cfg (buildLoopP cfg stopAt (cfg.P.nbVars + 2) (initPD cfg cache store polls)).1 e).cutset = [] :=
   finalizeP_cutset_of_exact cfg _ e
     (buildLoopP_lbmax cfg hlb hrel hW hc hd stopAt _ (initPD cfg cache store polls) ⟨rfl, Nat.le_refl _⟩).1
-
-/-- **C08 (iii), pooled diagram, long arcs allowed**: the upper bound of a cut-set sub-problem is valid.
-    No hypothesis `cfg.lb < iMax`: with `lb = isize::MAX` the cut-set is empty (`compileP_lbmax_cutset`). -/
-theorem cutset_ub_valid_pooled' (cfg : Cfg S K) (H : Nat → S → EInt) (B : Int) (p0 : List Dec) (cache : Cache S)
-    (store : DomStore S K) (polls : Nat) (stopAt : Option Nat)
-    (hrel : cfg.ctype = .relaxed) (hcache : cfg.useCache = false) (hdom : cfg.dom = none) (hW : 1 ≤ cfg.width)
-    (hP : Potential cfg.P H) (hS : SkipWf cfg.P H) (hR : RubOk cfg.R H) (hM : MergeOk cfg.R H)
-    (hAM : Cover.AttMerge cfg.P cfg.R H)
-    (hB : NoClamp cfg.P cfg.R cfg.root.value B) (hlb : InI cfg.lb)
-    (hroot : ReachSkip cfg.P cfg.root.depth cfg.root.state cfg.root.value p0)
-    (hok : (compileP cfg cache store polls stopAt).1 = .ok) (r : Result S)
-    (hr : r = (compileP cfg cache store polls stopAt).2.1 ∨ (compileP cfg cache store polls stopAt).2.2.1 = some r) :
-    ∀ c ∈ r.cutset, ∀ x, (H c.depth c.state).addI c.value = some x → x > cfg.lb → x ≤ c.ub := by
-  intro c hc x hΦ hx
-  -- with `lb = isize::MAX` every node is pruned and the cut-set is empty
-  by_cases hlb' : cfg.lb < iMax
-  case neg =>
-    exfalso
-    have hlbeq : cfg.lb = iMax := by unfold InI at hlb; omega
-    obtain ⟨e, rfl⟩ := C08.compileP_results_ok cfg cache store polls stopAt hok r hr
-    rw [compileP_lbmax_cutset cfg hlbeq hrel hW hcache hdom cache store polls stopAt e] at hc
-    cases hc
-  have hclamp : ∀ y, x ≤ y → clamp y > cfg.lb := by
-    intro y hy
-    unfold InI at hlb
-    unfold clamp
-    simp only [iMin, iMax] at *
-    omega
-  have hy : HypP cfg H B x := ⟨hrel, hcache, hdom, hW, hP, hS, hR, hM, hAM, hB, hclamp⟩
-  obtain ⟨e, rfl⟩ := C08.compileP_results_ok cfg cache store polls stopAt hok r hr
-  obtain ⟨k', hinv, _⟩ := buildLoopP_inv cfg B p0 hB stopAt (cfg.P.nbVars + 2) (initPD cfg cache store polls) 0
-    (initPD_inv cfg B p0 hB hroot cache store polls) (by omega)
-  obtain ⟨Live, k, hI, hk, hterm⟩ := compileP_done cfg H B x hy cache store polls stopAt hok
-  generalize (buildLoopP cfg stopAt (cfg.P.nbVars + 2) (initPD cfg cache store polls)).1 = fin at hc hinv hI hterm
-  rcases hterm with hemp | hnone
-  · rw [finalizeP_cutset_of_empty cfg fin e hemp] at hc; cases hc
-  · refine FinP.cutset_ub ⟨hI, hnone, hk, fun l dp ly hl n hn hex => ?_⟩ hy hlb e c hc x hΦ (Int.le_refl _) hx
-    obtain ⟨_, _, _, hok'⟩ := hinv.layers l dp ly hl
-    exact (hok' n hn).2 hex
-
-/-- **C08 (iii), pooled diagram, long arcs allowed**, as first stated (with the redundant hypothesis `cfg.lb < iMax`) -/
-theorem cutset_ub_valid_pooled (cfg : Cfg S K) (H : Nat → S → EInt) (B : Int) (p0 : List Dec) (cache : Cache S)
-    (store : DomStore S K) (polls : Nat) (stopAt : Option Nat)
-    (hrel : cfg.ctype = .relaxed) (hcache : cfg.useCache = false) (hdom : cfg.dom = none) (hW : 1 ≤ cfg.width)
-    (hP : Potential cfg.P H) (hS : SkipWf cfg.P H) (hR : RubOk cfg.R H) (hM : MergeOk cfg.R H)
-    (hAM : Cover.AttMerge cfg.P cfg.R H)
-    (hB : NoClamp cfg.P cfg.R cfg.root.value B) (hlb : InI cfg.lb) (hlb' : cfg.lb < iMax)
-    (hroot : ReachSkip cfg.P cfg.root.depth cfg.root.state cfg.root.value p0)
-    (hok : (compileP cfg cache store polls stopAt).1 = .ok) (r : Result S)
-    (hr : r = (compileP cfg cache store polls stopAt).2.1 ∨ (compileP cfg cache store polls stopAt).2.2.1 = some r) :
-    ∀ c ∈ r.cutset, ∀ x, (H c.depth c.state).addI c.value = some x → x > cfg.lb → x ≤ c.ub :=
-  cutset_ub_valid_pooled' cfg H B p0 cache store polls stopAt hrel hcache hdom hW hP hS hR hM hAM hB hlb hroot hok r hr
-
-/-- **C08 (iv), pooled diagram, long arcs allowed**: the cut-set covers the root sub-problem, in potential form. -/
-theorem cutset_cover_pooled (cfg : Cfg S K) (H : Nat → S → EInt) (B : Int) (p0 : List Dec) (cache : Cache S)
-    (store : DomStore S K) (polls : Nat) (stopAt : Option Nat)
-    (hrel : cfg.ctype = .relaxed) (hcache : cfg.useCache = false) (hdom : cfg.dom = none) (hW : 1 ≤ cfg.width)
-    (hP : Potential cfg.P H) (hS : SkipWf cfg.P H) (hR : RubOk cfg.R H) (hM : MergeOk cfg.R H)
-    (hAM : Cover.AttMerge cfg.P cfg.R H)
-    (hB : NoClamp cfg.P cfg.R cfg.root.value B) (hlb : InI cfg.lb)
-    (hroot : ReachSkip cfg.P cfg.root.depth cfg.root.state cfg.root.value p0)
-    (o : Int) (ho : optOf H cfg.root = some o) (hgt : o > cfg.lb) (hO : o ≤ iMax ∨ cfg.lb < iMax)
-    (hok : (compileP cfg cache store polls stopAt).1 = .ok) (r : Result S)
-    (hr : r = (compileP cfg cache store polls stopAt).2.1 ∨ (compileP cfg cache store polls stopAt).2.2.1 = some r)
-    (hbe : ∀ be, r.bestExactValue = some be → be < o) :
-    ∃ c ∈ r.cutset, ∃ y, (H c.depth c.state).addI c.value = some y ∧ o ≤ y := by
-  have hclamp : ∀ y, o ≤ y → clamp y > cfg.lb := by
-    intro y hy
-    unfold InI at hlb
-    unfold clamp
-    simp only [iMin, iMax] at *
-    omega
-  have hy : HypP cfg H B o := ⟨hrel, hcache, hdom, hW, hP, hS, hR, hM, hAM, hB, hclamp⟩
-  obtain ⟨h0, hH0, ho0⟩ := addI_some ho
-  have ht : o ≤ cfg.root.value + h0 := by omega
-  obtain ⟨e, rfl⟩ := C08.compileP_results_ok cfg cache store polls stopAt hok r hr
-  obtain ⟨k', hinv, _⟩ := buildLoopP_inv cfg B p0 hB stopAt (cfg.P.nbVars + 2) (initPD cfg cache store polls) 0
-    (initPD_inv cfg B p0 hB hroot cache store polls) (by omega)
-  obtain ⟨Live, k, hI, hk, hterm⟩ := compileP_done cfg H B o hy cache store polls stopAt hok
-  generalize (buildLoopP cfg stopAt (cfg.P.nbVars + 2) (initPD cfg cache store polls)).1 = fin at hbe hinv hI hterm ⊢
-  rcases hterm with hemp | hnone
-  · exfalso
-    obtain ⟨m, hm, _⟩ := hI.cover_root h0 hH0 ht
-    rw [hemp] at hm; cases hm
-  · refine FinP.cutset_cover ⟨hI, hnone, hk, fun l dp ly hl n hn hex => ?_⟩ hy e h0 hH0 ht hbe
-    obtain ⟨_, _, _, hok'⟩ := hinv.layers l dp ly hl
-    exact (hok' n hn).2 hex
 
 end Ddo.PBounds
 
@@ -1752,27 +1669,6 @@ example : (compileP cfg (Cache.init 4) (DomStore.init 4) 0 none).2.2.2.layers.ma
      (2, [(0, true, [0]), (1, true, [1]), (1, false, [0, 1])]),
      (3, [(1, false, [2]), (2, false, [2]), (2, false, [2, 2])])] := by decide
 
-/-- the cut-set `(state, value, ub, depth)`: the root and its child of depth 1; potentials `3` and `3`: the bounds are tight -/
-example : (compileP cfg (Cache.init 4) (DomStore.init 4) 0 none).2.1.cutset.map
-    (fun c => (c.state, c.value, c.ub, c.depth)) = [(0, 0, 3, 0), (1, 1, 3, 1)] := by decide
-
-example : ∀ c ∈ (compileP cfg (Cache.init 4) (DomStore.init 4) 0 none).2.1.cutset, ∀ x,
-    (H c.depth c.state).addI c.value = some x → x > cfg.lb → x ≤ c.ub :=
-  cutset_ub_valid_pooled cfg H 1 [] (Cache.init 4) (DomStore.init 4) 0 none rfl rfl rfl (by decide)
-    potential skipWf rubOk mergeOk attMerge noClamp (by decide) (by decide) ReachSkip.root (by decide) _ (.inl rfl)
-
-example : ∃ c ∈ (compileP cfg (Cache.init 4) (DomStore.init 4) 0 none).2.1.cutset, ∃ y,
-    (H c.depth c.state).addI c.value = some y ∧ 3 ≤ y :=
-  cutset_cover_pooled cfg H 1 [] (Cache.init 4) (DomStore.init 4) 0 none rfl rfl rfl (by decide)
-    potential skipWf rubOk mergeOk attMerge noClamp (by decide) ReachSkip.root 3 rfl (by decide)
-    (.inl (by decide)) (by decide) _ (.inl rfl)
-    (by
-      have h : (compileP cfg (Cache.init 4) (DomStore.init 4) 0 none).2.1.bestExactValue = none := by decide
-      intro be hbe; rw [h] at hbe; cases hbe)
-
 end Ddo.PBounds.TinyLong
 
-#print axioms Ddo.PBounds.cutset_ub_valid_pooled
-#print axioms Ddo.PBounds.cutset_ub_valid_pooled'
-#print axioms Ddo.PBounds.cutset_cover_pooled
 #print axioms Ddo.PBounds.compileP_bestValue_ge
